@@ -251,6 +251,95 @@ for (kind, phase, fault) in schedules:
         chk.violation('process', 'proxy-died', f'proxy exited with {px.returncode()} during {kind}/{phase}/{fault}: {px.log()[-300:]}', {})
         break
 
+# ---- the upstream silently drops connection attempts (no refusal, no reset) while many requests are routed to it:
+#      tunnels and new requests on other upstreams must not notice, and the connector recovers afterwards
+def blackhole(port):
+    """a listener whose accept queue is full: further SYNs are dropped"""
+    l = socket.socket()
+    l.setsockopt(socket.SOL_SOCKET, socket.SO_REUSEADDR, 1)
+    for _ in range(100):
+        try:
+            l.bind(('127.0.0.1', port))
+            break
+        except OSError:
+            time.sleep(0.05)
+    l.listen(0)
+    fillers = []
+    for _ in range(8):
+        f = socket.socket()
+        f.settimeout(0.3)
+        try:
+            f.connect(('127.0.0.1', port))
+            fillers.append(f)
+        except OSError:
+            f.close()
+            return l, fillers, True
+    return l, fillers, False
+
+for kind in ('http', 'socks5'):
+    if not px.alive():
+        break
+    evals += 1
+    up = upstream_of(kind)[0]
+    if not probe(kind):
+        machinery(f'{kind} connector does not work before the black-hole scenario')
+    up.stop()
+    hole, fillers, dropping = blackhole(up.port)
+    if not dropping:
+        for f in fillers:
+            f.close()
+        hole.close()
+        up.start()
+        samples.append({'blackhole': kind, 'skipped': 'could not make the kernel drop connection attempts'})
+        continue
+    pend = []
+    def pending_request(i):
+        try:
+            s, code, head, rest = http_connect(hp, target_for(kind), timeout=15)
+            s.close()
+        except OSError:
+            pass
+    ths = [threading.Thread(target=pending_request, args=(i,), daemon=True) for i in range(48)]
+    [t.start() for t in ths]
+    t0 = time.time()
+    worst_ctl = worst_new = 0.0
+    bad = []
+    while time.time() - t0 < 4.0:
+        a = time.time()
+        okc = control_ok()
+        worst_ctl = max(worst_ctl, time.time() - a)
+        a = time.time()
+        okn = probe('direct', deadline=2.5)
+        worst_new = max(worst_new, time.time() - a)
+        if not okc:
+            bad.append('control tunnel on a healthy upstream stalled')
+            break
+        if not okn:
+            bad.append('new request through the direct connector not served within 2.5 s')
+            break
+        time.sleep(0.2)
+    for f in fillers:
+        f.close()
+    hole.close()
+    up.start()
+    distinct.add((kind, 'blackhole', bool(bad)))
+    for b in bad:
+        chk.violation('recovery.isolation', f'healthy-traffic-disturbed-while-upstream-drops-connection-attempts:{kind}', f'{kind} upstream silently dropping SYNs with 48 requests pending: {b} (worst control round trip {worst_ctl:.2f}s, worst new request {worst_new:.2f}s)', {'connector': kind, 'pending': 48})
+    rec = None
+    for attempt in range(1, K + 1):
+        if probe(kind):
+            rec = attempt
+            break
+        time.sleep(0.5)
+    if rec is None:
+        chk.violation('recovery.resume', f'no-service-after-upstream-returned:{kind}/syn-blackhole', f'{kind}: {K} attempts after the upstream accepts again, still no tunnel', {'connector': kind})
+    samples.append({'blackhole': kind, 'worst_control_s': round(worst_ctl, 3), 'worst_new_request_s': round(worst_new, 3), 'recovered_at_attempt': rec})
+    for t in ths:
+        t.join(0.1)
+    if not control_ok():
+        # the control tunnel itself died: re-open for what follows
+        control = control_open()
+
 if tier() == 'thorough' and px.alive():
     # pairs of outages on the same connector
     for kind in KINDS:
@@ -269,6 +358,6 @@ for o in (echo, qecho, cecho):
 if evals < 12 or len(distinct) < 5:
     machinery(f'vacuous: evals={evals} distinct={len(distinct)}')
 cov = {'evaluations': evals, 'distinct_nontrivial': len(distinct), 'transitions': evals, 'traces_validated_against_impl': evals,
-       'rule': f'real binary: connector kind {KINDS} x outage phase {PHASES} x fault {FAULTS} (quick: handshake phase only with restart; thorough adds all pairs of outages); recovery = a probe succeeds within K={K} attempts of {DEADLINE} s after the upstream is reachable again; control tunnel checked during and after every outage',
+       'rule': f'real binary: connector kind {KINDS} x outage phase {PHASES} x fault {FAULTS} (quick: handshake phase only with restart; thorough adds all pairs of outages); recovery = a probe succeeds within K={K} attempts of {DEADLINE} s after the upstream is reachable again; control tunnel checked during and after every outage; plus, for http and socks5 upstreams, a listener that silently drops connection attempts with 48 requests pending while the control tunnel and new direct requests are timed',
        'schedules': evals, 'K': K, 'deadline_s': DEADLINE, 'schedule_control': 'kernel', 'samples': samples}
 sys.exit(chk.finish('fault_enumeration', cov, ['silent packet loss on the QUIC path with later recovery is out of reach (needs the 3600 s idle timeout)', 'upstreams are Python servers / a second redproxy process killed with SIGKILL'], merge=False))
